@@ -9,6 +9,12 @@ compiled driver runs at `Float` and `Rat`).
   the rational Pythagorean pairs the driver can be run on.
 * Part B instantiates the model at `ℝ` (`Proofs/GeoReal.lean`) and adds what needs analysis:
   angle addition, `R(-a)`, derivatives, the ACR triad (square roots), azimuth/elevation.
+* Part C is the object / array level of `Model/Frames.lean` (also run by the driver): the frame
+  properties of `_position.py` and the `delta_*` conversions regenerated from the source equal the
+  model (whose frame is used), rows of an array are converted independently and there-and-back is
+  the identity on arrays, row selection commutes with converting, the ranges of the reported
+  angles, and — composed with the C05 model of `trs2llh` — Up is the surface normal for an
+  observer on its ellipsoid.
 
 Not proved (measured by the correspondence, harness/c06.py): the `< 1e-9` relative bound of the
 IEEE evaluation; the principal ranges libm's `atan2`/`asin` return.
@@ -17,6 +23,9 @@ import Midgard.Proofs.GeoReal
 import Midgard.Proofs.SourceTie
 import Midgard.Model.Rotation
 import Midgard.Generated.PositionSystems
+import Midgard.Model.Frames
+import Midgard.Generated.SourceFrames
+import Midgard.Proofs.FramesReal
 
 namespace Midgard.Props.C06
 open Midgard.Geo
@@ -542,6 +551,184 @@ theorem source_enu_matrices (cl sl co so : ℝ) :
 
 end Source
 
+/-! ### The frame properties and the delta conversions are the source (regenerated on every run)
+
+`Generated/SourceFrames.lean` is written by `translator/extract_frames.py` from the `ast` of `_position.py` and
+`transformation.py`: the frame properties as functions of the position objects involved.  The theorems say that they are
+the object-level model of `Model/Frames.lean` — in particular *whose* latitude / longitude enters (the observer's for
+azimuth / elevation, `ref_pos`'s for a delta), which column of `enu2trs` is East / North / Up, and that the vector is
+target minus observer. -/
+section SourceFrames
+open Midgard.Generated
+
+theorem source_frame_triad (self : PosObj ℝ) :
+    Frames.enu2trsSrc self = self.enu2trs ∧ Frames.trs2enuSrc self = self.trs2enu ∧
+    Frames.enuEastSrc self = self.east ∧ Frames.enuNorthSrc self = self.north ∧ Frames.enuUpSrc self = self.up :=
+  ⟨rfl, rfl, rfl, rfl, rfl⟩
+
+theorem source_frame_angles (self other : PosObj ℝ) :
+    Frames.vectorToSrc self other = self.vectorTo other ∧
+    Frames.distanceToSrc self other = self.distanceTo other ∧
+    Frames.directionToSrc self other = self.direction other ∧
+    Frames.azimuthToSrc self other = self.azimuthTo other ∧
+    Frames.elevationToSrc self other = self.elevationTo other ∧
+    Frames.zenithDistanceToSrc self other = self.zenithDistanceTo other ∧
+    Frames.azimuthSrc self other = self.azimuthTo other ∧
+    Frames.elevationSrc self other = self.elevationTo other ∧
+    Frames.zenithDistanceSrc self other = self.zenithDistanceTo other ∧
+    Frames.vectorSrc self other = self.vectorTo other ∧
+    Frames.distanceSrc self other = self.distanceTo other ∧
+    Frames.directionSrc self other = self.direction other :=
+  ⟨rfl, rfl, rfl, rfl, rfl, rfl, rfl, rfl, rfl, rfl, rfl, rfl⟩
+
+theorem source_frame_acr (self : PosObj ℝ) :
+    Frames.trs2acrSrc self = self.trs2acr ∧ Frames.acr2trsSrc self = self.acr2trs := ⟨rfl, rfl⟩
+
+theorem source_delta_conversions (ref : PosObj ℝ) (d : V3 ℝ) (w : V6 ℝ) :
+    Frames.deltaTrs2EnuSrc ref d = deltaTrs2Enu ref d ∧ Frames.deltaEnu2TrsSrc ref d = deltaEnu2Trs ref d ∧
+    Frames.deltaTrs2EnuPosVelSrc ref w = deltaTrs2EnuPosVel ref w ∧
+    Frames.deltaEnu2TrsPosVelSrc ref w = deltaEnu2TrsPosVel ref w ∧
+    Frames.deltaTrs2AcrPosVelSrc ref w = deltaTrs2Acr ref w ∧ Frames.deltaAcr2TrsPosVelSrc ref w = deltaAcr2Trs ref w :=
+  ⟨rfl, rfl, rfl, rfl, rfl, rfl⟩
+
+end SourceFrames
+
+/-! ### arrays: every row in the frame of its own reference position -/
+section Rows
+
+/-- **row `i` of a converted array is the conversion of row `i` of the values in the frame of row `i` of the reference
+positions** (whatever the other rows are: nearly equal reference positions do not share a frame), and the converted
+array has the rows of the input -/
+theorem rows_independent {β : Type} (f : PosObj ℝ → β → β) (refs : List (PosObj ℝ)) (ds : List β)
+    (hl : refs.length = ds.length) :
+    (rowsWith f refs ds).length = ds.length ∧
+    ∀ i (hr : i < refs.length) (hd : i < ds.length), (rowsWith f refs ds)[i]? = some (f refs[i] ds[i]) := by
+  refine ⟨by simp [rowsWith, hl], fun i hr hd => ?_⟩
+  simp [rowsWith, List.getElem?_zipWith, List.getElem?_eq_getElem hr, List.getElem?_eq_getElem hd]
+
+/-- **there and back is the identity on arrays**, `PositionDelta` `(n, 3)` and `PosVelDelta` `(n, 6)`, ENU, both
+directions, every row with its own reference position -/
+theorem rows_enu_roundtrip (refs : List (PosObj ℝ)) (ds : List (V3 ℝ)) (ws : List (V6 ℝ))
+    (hd : refs.length = ds.length) (hw : refs.length = ws.length) :
+    rowsEnu2Trs refs (rowsTrs2Enu refs ds) = ds ∧ rowsTrs2Enu refs (rowsEnu2Trs refs ds) = ds ∧
+    rowsEnu2TrsPosVel refs (rowsTrs2EnuPosVel refs ws) = ws ∧ rowsTrs2EnuPosVel refs (rowsEnu2TrsPosVel refs ws) = ws := by
+  have cs : ∀ a : ℝ, Real.cos a ^ 2 + Real.sin a ^ 2 = 1 := Real.cos_sq_add_sin_sq
+  have back : ∀ (r : PosObj ℝ) (w : V6 ℝ), deltaTrs2EnuPosVel r (deltaEnu2TrsPosVel r w) = w := by
+    intro r w
+    obtain ⟨h1, _, _⟩ := enu2trs_rotation _ _ _ _ (cs r.lat) (cs r.lon)
+    simp only [deltaTrs2EnuPosVel, deltaEnu2TrsPosVel, deltaEnu2TrsPosVelCS, deltaTrs2EnuPosVelCS, blockDiag_mulVec,
+      trs2enu_eq_transpose]
+    apply V6.ext' <;> exact mulVec_transpose_cancel _ h1 _
+  refine ⟨?_, ?_, ?_, ?_⟩
+  · exact rowsWith_cancel deltaTrs2Enu deltaEnu2Trs (fun _ => True)
+      (fun r _ d => (delta_enu_roundtrip _ _ _ _ (cs r.lat) (cs r.lon) d).1) refs ds hd (fun _ _ => trivial)
+  · exact rowsWith_cancel deltaEnu2Trs deltaTrs2Enu (fun _ => True)
+      (fun r _ d => (delta_enu_roundtrip _ _ _ _ (cs r.lat) (cs r.lon) d).2) refs ds hd (fun _ _ => trivial)
+  · exact rowsWith_cancel deltaTrs2EnuPosVel deltaEnu2TrsPosVel (fun _ => True)
+      (fun r _ w => (delta_enu_posvel_roundtrip _ _ _ _ (cs r.lat) (cs r.lon) w).1) refs ws hw (fun _ _ => trivial)
+  · exact rowsWith_cancel deltaEnu2TrsPosVel deltaTrs2EnuPosVel (fun _ => True) (fun r _ w => back r w) refs ws hw
+      (fun _ _ => trivial)
+
+/-- … and along/cross/radial, for orbit states with non-parallel `r`, `v` in every row -/
+theorem rows_acr_roundtrip (refs : List (PosObj ℝ)) (ws : List (V6 ℝ)) (hw : refs.length = ws.length)
+    (h : ∀ r ∈ refs, (V3.cross r.trs r.vel).norm2 ≠ 0) :
+    rowsAcr2Trs refs (rowsTrs2Acr refs ws) = ws ∧ rowsTrs2Acr refs (rowsAcr2Trs refs ws) = ws := by
+  have back : ∀ (r : PosObj ℝ), (V3.cross r.trs r.vel).norm2 ≠ 0 → ∀ w : V6 ℝ, deltaTrs2Acr r (deltaAcr2Trs r w) = w := by
+    intro r hr w
+    obtain ⟨⟨_, h2, _⟩, _, _, _, ht⟩ := acr_orthonormal_righthanded r.trs r.vel hr
+    simp only [deltaTrs2Acr, deltaAcr2Trs, deltaAcr2TrsPosVel, deltaTrs2AcrPosVel, blockDiag_mulVec, ht]
+    apply V6.ext' <;> exact mulVec_cancel_transpose _ h2 _
+  refine ⟨?_, ?_⟩
+  · exact rowsWith_cancel deltaTrs2Acr deltaAcr2Trs (fun r => (V3.cross r.trs r.vel).norm2 ≠ 0)
+      (fun r hr w => (delta_acr_posvel_roundtrip r.trs r.vel hr w).1) refs ws hw h
+  · exact rowsWith_cancel deltaAcr2Trs deltaTrs2Acr (fun r => (V3.cross r.trs r.vel).norm2 ≠ 0) back refs ws hw h
+
+/-- **rows / slices / masks**: converting the selected rows (with the selected rows of the reference positions) gives
+the selected rows of the converted array — `delta[idx].enu = delta.enu[idx]` for every conversion -/
+theorem rows_selection_commutes {β : Type} (f : PosObj ℝ → β → β) (refs : List (PosObj ℝ)) (ds : List β)
+    (hl : refs.length = ds.length) (idx : List Nat) :
+    rowsWith f (takeRows refs idx) (takeRows ds idx) = takeRows (rowsWith f refs ds) idx :=
+  (takeRows_rowsWith f refs ds hl idx).symm
+
+example : rowsTrs2Enu [⟨⟨1, 0, 0⟩, ⟨0, 1, 0⟩, 0, 0⟩] [(⟨1, 2, 3⟩ : V3 ℝ)] = [⟨2, 3, 1⟩] := by
+  simp [rowsTrs2Enu, rowsWith, deltaTrs2Enu, deltaTrs2EnuCS, trs2enuCS, M3.mulVec, V3.dot]
+
+end Rows
+
+/-! ### ranges of the reported angles -/
+section Ranges
+
+/-- **azimuth ∈ (−π, π], elevation ∈ [−π/2, π/2], zenith distance ∈ [0, π]** for every observer and every target
+(whatever the vectors are — also for a target at the observer, where the code divides 0 by 0) -/
+theorem angle_ranges (self other : PosObj ℝ) :
+    (-Real.pi < self.azimuthTo other ∧ self.azimuthTo other ≤ Real.pi) ∧
+    (-(Real.pi / 2) ≤ self.elevationTo other ∧ self.elevationTo other ≤ Real.pi / 2) ∧
+    (0 ≤ self.zenithDistanceTo other ∧ self.zenithDistanceTo other ≤ Real.pi) := by
+  have key : ∀ x : ℝ, 0 ≤ Real.pi / (1 + 1) - Real.arcsin x ∧ Real.pi / (1 + 1) - Real.arcsin x ≤ Real.pi := by
+    intro x
+    have h1 := Real.arcsin_le_pi_div_two x
+    have h2 := Real.neg_pi_div_two_le_arcsin x
+    have h3 : (1 + 1 : ℝ) = 2 := by norm_num
+    rw [h3]; constructor <;> linarith
+  refine ⟨⟨?_, ?_⟩, ⟨?_, ?_⟩, ?_, ?_⟩
+  · simp only [PosObj.azimuthTo, azimuthCS, trig_atan2]; exact Complex.neg_pi_lt_arg _
+  · simp only [PosObj.azimuthTo, azimuthCS, trig_atan2]; exact Complex.arg_le_pi _
+  · simp only [PosObj.elevationTo, elevationCS, trig_asin]; exact Real.neg_pi_div_two_le_arcsin _
+  · simp only [PosObj.elevationTo, elevationCS, trig_asin]; exact Real.arcsin_le_pi_div_two _
+  · exact (key _).1
+  · exact (key _).2
+
+end Ranges
+
+
+/-! ### Up is the surface normal (composition with the C05 model of `trs2llh`) -/
+section SurfaceNormal
+
+/-- **Up is the normal of the ellipsoid surface at the observer** (the clause "tied to the geodetic normal", composed
+with the C05 model of `trs2llh`): for an observer `v` *on the surface* of its ellipsoid `x²/a² + y²/a² + z²/b² = 1`
+(any `a > 0`, `f < 1`, off the pole branch), the `enu_up` of the frame taken at the geodetic coordinates
+`trs2llh E v` the code computes is a unit vector parallel to the gradient `(x/a², y/a², z/b²)` of the ellipsoid
+equation at `v`, pointing outwards — i.e. exactly the surface normal there; `enu_east` is tangent to the surface
+and horizontal, `enu_north` tangent. -/
+theorem up_is_surface_normal (E : Ellipsoid ℝ) (ha : 0 < E.a) (hf1 : E.f < 1) (v vel : V3 ℝ)
+    (hon : (v.x * v.x + v.y * v.y) / (E.a * E.a) + (v.z * v.z) / (E.b * E.b) = 1)
+    (hoff : ¬ v.x * v.x + v.y * v.y ≤ E.a * E.a * 1e-32) :
+    let o : PosObj ℝ := ⟨v, vel, (trs2llh E v).lat, (trs2llh E v).lon⟩
+    let grad : V3 ℝ := ⟨v.x / E.a ^ 2, v.y / E.a ^ 2, v.z / E.b ^ 2⟩
+    V3.cross grad o.up = V3.zero ∧ 0 < V3.dot grad o.up ∧ o.up.norm2 = 1 ∧
+    V3.dot grad o.east = 0 ∧ V3.dot grad o.north = 0 ∧ o.east.z = 0 := by
+  intro o grad
+  have cs : ∀ a : ℝ, Real.cos a ^ 2 + Real.sin a ^ 2 = 1 := Real.cos_sq_add_sin_sq
+  set g := trs2llh E v with hg
+  have hv : llh2trsCS E (Real.cos g.lat) (Real.sin g.lat) (Real.cos g.lon) (Real.sin g.lon) 0 = v := by
+    have h1 := Midgard.Props.C05.surface_roundtrip E ha hf1 v hon hoff
+    have h0 := surface_height_zero E ha hf1 v hon hoff
+    rw [← hg] at h1 h0
+    simpa only [llh2trs, trig_cos, trig_sin, h0] using h1
+  have hup : o.up = normalCS (Real.cos g.lat) (Real.sin g.lat) (Real.cos g.lon) (Real.sin g.lon) :=
+    up_is_normal _ _ _ _
+  have hpar := Midgard.Props.C05.normal_parallel_gradient E ha.ne' (ne_of_lt hf1) (Real.cos g.lat) (Real.sin g.lat)
+    (Real.cos g.lon) (Real.sin g.lon)
+  have hout := Midgard.Props.C05.normal_outward E ha (ne_of_lt hf1) (Real.cos g.lat) (Real.sin g.lat)
+    (Real.cos g.lon) (Real.sin g.lon) (cs _) (cs _)
+  simp only [hv] at hpar hout
+  have hunit := Midgard.Props.C05.normal_unit (Real.cos g.lat) (Real.sin g.lat) (Real.cos g.lon) (Real.sin g.lon) (cs _) (cs _)
+  have hperp := east_perp_axis_up (Real.cos g.lat) (Real.sin g.lat) (Real.cos g.lon) (Real.sin g.lon)
+  have hnorth : V3.dot o.north o.up = 0 := by
+    simp only [o, PosObj.north, PosObj.up, enuNorthCS, enuUpCS, enu2trsCS, M3.col2, M3.col3, V3.dot, trig_cos, trig_sin]
+    linear_combination (-(Real.cos g.lat * Real.sin g.lat)) * cs g.lon
+  refine ⟨by rw [hup]; exact hpar, by rw [hup]; exact hout, by rw [hup]; exact hunit, ?_, ?_, ?_⟩
+  · exact dot_zero_of_parallel grad o.up o.east (by rw [hup]; exact hpar) (by rw [hup]; exact hunit) hperp.2
+  · exact dot_zero_of_parallel grad o.up o.north (by rw [hup]; exact hpar) (by rw [hup]; exact hunit) hnorth
+  · simp only [o, PosObj.east, enuEastCS, enu2trsCS, M3.col1]
+
+
+example : ∃ (E : Ellipsoid ℝ) (v : V3 ℝ), 0 < E.a ∧ E.f < 1 ∧
+    (v.x * v.x + v.y * v.y) / (E.a * E.a) + (v.z * v.z) / (E.b * E.b) = 1 ∧ ¬ v.x * v.x + v.y * v.y ≤ E.a * E.a * 1e-32 :=
+  ⟨⟨1, none⟩, ⟨1, 0, 0⟩, by norm_num, by simp [Ellipsoid.f], by simp [Ellipsoid.b, Ellipsoid.f], by norm_num⟩
+
+end SurfaceNormal
+
 end Midgard.Props.C06
 
 #print axioms Midgard.Props.C06.R1_rotation
@@ -583,3 +770,13 @@ end Midgard.Props.C06
 #print axioms Midgard.Props.C06.registered_conversions
 #print axioms Midgard.Props.C06.source_axis_rotations
 #print axioms Midgard.Props.C06.source_enu_matrices
+#print axioms Midgard.Props.C06.source_frame_triad
+#print axioms Midgard.Props.C06.source_frame_angles
+#print axioms Midgard.Props.C06.source_frame_acr
+#print axioms Midgard.Props.C06.source_delta_conversions
+#print axioms Midgard.Props.C06.rows_independent
+#print axioms Midgard.Props.C06.rows_enu_roundtrip
+#print axioms Midgard.Props.C06.rows_acr_roundtrip
+#print axioms Midgard.Props.C06.rows_selection_commutes
+#print axioms Midgard.Props.C06.angle_ranges
+#print axioms Midgard.Props.C06.up_is_surface_normal
